@@ -3229,10 +3229,14 @@ func (db *DB) checksum(pageN uint32, newWALChecksums map[uint32]ltx.Checksum) (l
 	blockN := pageChksumBlock(pageN) + 1
 	ignoredBlocks := make([]bool, blockN)
 	for pgno := range db.wal.chksums {
-		ignoredBlocks[pageChksumBlock(pgno)] = true
+		if block := pageChksumBlock(pgno); block < blockN {
+			ignoredBlocks[block] = true
+		}
 	}
 	for pgno := range newWALChecksums {
-		ignoredBlocks[pageChksumBlock(pgno)] = true
+		if block := pageChksumBlock(pgno); block < blockN {
+			ignoredBlocks[block] = true
+		}
 	}
 
 	var chksum ltx.Checksum
